@@ -23,7 +23,9 @@ mod fam_create;
 mod gen;
 mod fam_fold;
 mod fam_marginalize;
+mod fam_npy;
 mod fam_project;
+mod fam_text;
 mod symbolic;
 
 pub use common::*;
@@ -56,7 +58,9 @@ fn family(name: &str) -> Option<Runner> {
         "create" => fam_create::run,
         "fold" => fam_fold::run,
         "marginalize" => fam_marginalize::run,
+        "npy" => fam_npy::run,
         "project" => fam_project::run,
+        "text" => fam_text::run,
         _ => return None,
     })
 }
